@@ -16,6 +16,9 @@ var concPrograms = []string{
 	"", " ", "#", "\n(", "1 +\n", "'abc", "d + 0", "3d + d", "func r(){ d }; r() + d", "600a10 + 1", "5a6k4 + d6",
 	// computed values without attributes whose bodies assign / read a name nobody defined: each VM's own business
 	"&ca = (hp9 = 50) + 1; ca", "&cb = (hp9 ?? 10) + 1; cb", "&cc = (mp9 ?? 3) * 2; cc + cc",
+	// builtin methods called again and again (the method objects live in prototype tables shared by every VM of the process)
+	"i = 0; a = [3,1,2]; while i < 150 { i = i + 1; a.sum(); a.len(); a.kh(1) }; i", "i = 0; dq = {'a': 1}; while i < 150 { i = i + 1; dq.keys(); dq.len() }; i",
+	"i = 0; while i < 100 { i = i + 1; [i, 2].sum() + {'k': i}.values().len() }; i",
 	"&cv = 2d4; cv.compute() + 1", "[9,8,7].kl(2)", "'abc'[1] + 'x'", "3 +", "i = 0; while i < 5 { i = i + 1 }; i", "[1,2,3].rand() > 0",
 }
 
